@@ -186,12 +186,56 @@ def run():
                               gm["type"], json.dumps(gm["opts"]), o["how"], o["v"], " (" + o["exc"] + ")" if o["exc"] else "",
                               obs[0]["how"], obs[0]["v"]))
     chk.sample({"group": group_meta[0]["key"], "observations": [{k: o[k] for k in ("how", "v")} for o in groups[0]]})
+
+    # ---- (d) a file given as "-" (standard input) with an explicit type is parsed like the same bytes given by path ----
+    import pickle
+    import plistlib
+    from harness.common import digest
+    stdin_docs = {
+        "json": (json.dumps({"a": [1, "caf\u00e9"], "b": None}).encode(), json.dumps({"a": [1, "cafe"], "b": 2}).encode()),
+        "yaml": (b"a: [1, x]\nb: caf\xc3\xa9\n", b"a: [1, y]\nb: cafe\n"),
+        "xml": ('<?xml version="1.0" encoding="ISO-8859-1"?><root><name>caf\u00e9</name></root>'.encode("latin-1"),
+                '<?xml version="1.0" encoding="ISO-8859-1"?><root><name>cafe</name><x/></root>'.encode("latin-1")),
+        "plist": (plistlib.dumps({"a": [1, 2], "s": "caf\u00e9"}, fmt=plistlib.FMT_BINARY), plistlib.dumps({"a": [1, 3], "s": "cafe"})),
+        "pickle": (pickle.dumps({"a": [1, 2], "s": "x"}, protocol=4), pickle.dumps({"a": [1, 3], "s": "y"}, protocol=2)),
+        "csv": (b"a,b\n1,caf\xc3\xa9\n", b"a,b\n1,cafe\n2,3\n"),
+    }
+    sgroups, smeta = [], []
+    for typ, (ca, cb) in sorted(stdin_docs.items()):
+        for same in (False, True):
+            cb2 = ca if same else cb
+            fa = mats.file(ca, ".dat", "sa")
+            fb = mats.file(cb2, ".dat", "sb")
+            sel = ["--from-%s" % typ, "--to-%s" % typ, "--no-status", "--no-color"]
+            runs = [("by path", [fa, fb] + sel, None), ("first file on standard input", ["-", fb] + sel, ca),
+                    ("second file on standard input", [fa, "-"] + sel, cb2)]
+            obs = []
+            from concurrent.futures import ThreadPoolExecutor
+            with ThreadPoolExecutor(max_workers=3) as tp:
+                outs = list(tp.map(lambda x: clim.run_subprocess(x[1], stdin=x[2]), runs))
+            for (how, argv, data), res in zip(runs, outs):
+                obs.append({"k": "stdin|%s|%s" % (typ, same), "v": "%s/%s" % (digest(res["out"].decode("latin-1")), res["rc"]),
+                            "raised": bool(res["exc"]), "how": how, "exc": res["err"][-200:].decode("latin-1") if res["exc"] else ""})
+            sgroups.append(obs)
+            smeta.append({"type": typ, "same": same})
+    sverdicts, sst = functional.validate_groups(sgroups, name="C14-stdin")
+    chk.add_trace_stats(sst, "FunctionalTrace", sum(len(g) for g in sgroups))
+    for gm, obs, v in zip(smeta, sgroups, sverdicts):
+        for o in obs:
+            chk.count(("stdin", gm["type"], gm["same"], o["how"]))
+        if v["v"] != "ACCEPT":
+            o = obs[v["step"] - 1]
+            chk.violation({"clause": v["clause"], "how": "stdin", "type": gm["type"]}, {"stdin": gm},
+                          "%s documents (%s): '%s' gives %s %s, but '%s' gave %s" % (
+                              gm["type"], "equal" if gm["same"] else "different", o["how"], o["v"], o["exc"][-120:], obs[0]["how"], obs[0]["v"]))
     functional.model_check(chk)
     _cli.model_check(chk)
     chk.rule = ("cases = (c) points of the type-selection space {none, --S-TYPE, --S-mime} x type x file-name extension "
                 "{8 types, none} for both files (23 409 points enumerated by TLC, %s), each a real run of main() with the "
                 "loaders wrapped; (a)/(b) %d pairs of files x option sets, each observed through the library pipeline and "
-                "through 4-6 equivalent command-line spellings; distinct by point / (pair, spelling); non-trivial = at "
+                "through 4-6 equivalent command-line spellings; (d) 6 types x (equal | different) documents, incl. non-UTF-8 content "
+                "(Latin-1 XML, binary plist, pickles), given by path, with the first and with the second file on standard input; "
+                "distinct by point / (pair, spelling); non-trivial = at "
                 "least one explicit type option" % ("sampled to %d" % n_sel if n_sel < len(space) else "all run", n_pairs))
     chk.assumptions = ["the library pipeline is Filetype.build_tree -> TreeNode.diff -> default formatter of the first "
                        "file's type -> Printer(ansi_color=False), as documented in docs/library.rst and done by main()",
